@@ -172,6 +172,44 @@ example :
     (∀ e ∈ evs, e.isPrune = false) ∧ acceptedCount t (run c St.empty evs) = 1 := by
   decide
 
+/-- **At most once, on the wire.**  `CsrfProtection.check` decodes the submitted text with
+`unquote` before anything else and the consumed-token identity is the decoded token.  So for
+*any* function `unquote`, in any wire history without a prune step, all presentations whose
+text decodes to `t` – whatever their spelling (issued `%27…%3D` form, fully decoded, lower-case
+escapes, partially or over-encoded) – are accepted at most once **in total**. -/
+theorem csrf_at_most_once_wire (c : Cfg) (t : Str) (evs : List WireEv) (st : St)
+    (h : ∀ e ∈ evs, e.isPrune = false) :
+    acceptedCount t (runWire c st evs) ≤ 1 := by
+  unfold runWire
+  apply csrf_at_most_once
+  intro e he
+  obtain ⟨w, hw, rfl⟩ := List.mem_map.1 he
+  have := h w hw
+  cases w with
+  | prune => simp [WireEv.isPrune] at this
+  | check svc ck o wire => rfl
+
+/-- two spellings of one token share one replay record: once a text decoding to `t` has been
+accepted (or has failed the signature test), no text with the same decoding is accepted,
+for any service, cookie and origin -/
+theorem csrf_spellings_share_one_record (c : Cfg) (st : St) (svc svc' : Str) (ck ck' : Option Str)
+    (o o' w w' : Str) (hsame : c.unquote w = c.unquote w')
+    (h : (checkWire c st svc ck o w).2 = .accepted ∨ (checkWire c st svc ck o w).2 = .badSignature) :
+    (checkWire c (checkWire c st svc ck o w).1 svc' ck' o' w').2 ≠ .accepted := by
+  unfold checkWire at *
+  rw [← hsame]
+  apply check_of_used
+  rcases h with h | h
+  · exact check_accepted_records c st svc ck o _ h
+  · exact check_badSignature_records c st svc ck o _ h
+
+/-- the driver's instantiation of `unquote` identifies the spellings the harness uses -/
+example : pctDecode "AbCd1234b%27x%2By/z%3D%27".toList = "AbCd1234b'x+y/z='".toList ∧
+    pctDecode "AbCd1234b%27x%2by/z%3d%27".toList = "AbCd1234b'x+y/z='".toList ∧
+    pctDecode "%41bCd1234b'x+y%2Fz=%27".toList = "AbCd1234b'x+y/z='".toList ∧
+    pctDecode "AbCd1234b'x+y/z='".toList = "AbCd1234b'x+y/z='".toList := by
+  decide
+
 /-- the first failing presentation consumes the token: after a `badSignature` the same
 string is refused as a re-use (this is the order the code uses: record, then verify) -/
 theorem csrf_failed_check_consumes (c : Cfg) (st : St) (svc svc' : Str) (ck ck' : Option Str)
